@@ -659,4 +659,46 @@ def execute (env : Env) (hasRecover : Bool) (fuel : Nat) (plan : Option Arg) (ro
     | (.error .enum, h') => (.enum, h')
     | (.error .fuel, h') => (.fuel, h')
 
+/-! ## the heap layout the general theorems assume, as a check
+
+`rerun_general` and `execute_total` (Props/C20.lean) assume: the plan's cells are the first `k` cells, laid
+out children first; the cells from `k` on (the data) only refer to cells from `k` on; the root is in the
+data; the plan's literals are cells below `k`. The driver evaluates `layoutOK` on the heap it has built
+before every execution (`layoutOK_sound`: the check implies the hypotheses). -/
+
+def Val.hiB (k : Nat) : Val → Bool
+  | .aref a => decide (k ≤ a)
+  | .mref a => decide (k ≤ a)
+  | _ => true
+
+def Val.belowB (i : Nat) : Val → Bool
+  | .aref a => decide (a < i)
+  | .mref a => decide (a < i)
+  | _ => true
+
+def Cell.allB (p : Val → Bool) : Cell → Bool
+  | .arr xs => xs.all p
+  | .map kvs => kvs.all (fun kv => p kv.2)
+
+/-- cells `i, i+1, …`: a plan cell (index below `k`) refers to earlier cells only, a data cell to data only -/
+def heapLayoutB (k : Nat) : Nat → Heap → Bool
+  | _, [] => true
+  | i, c :: r => (if i < k then c.allB (Val.belowB i) else c.allB (Val.hiB k)) && heapLayoutB k (i + 1) r
+
+/-- every literal of the plan is a scalar or a cell below `k` -/
+def argLoB (k : Nat) : Nat → Arg → Bool
+  | _, .lit v => v.belowB k
+  | _, .path _ => true
+  | _, .unk => true
+  | 0, .raw _ _ => false
+  | 0, .call _ _ => false
+  | n + 1, .raw v es => v.belowB k && es.all (argLoB k n)
+  | n + 1, .call _ args => args.all (argLoB k n)
+
+def layoutOK (k : Nat) (h : Heap) (root : Val) (plan : Option Arg) : Bool :=
+  decide (k ≤ h.length) && heapLayoutB k 0 h && root.hiB k &&
+    (match plan with
+     | none => true
+     | some a => argLoB k 400 a)
+
 end OjgVerif.Asm
